@@ -271,9 +271,11 @@ def run(ck: common.Check, replay=None):
                                   "source": dsg["source"]}))
         ck.hist("phases", phase)
         ck.hist("layouts", name)
-    X.run_cases(ck, cases, "AXI4-Lite monitor flags on an input sequence (handshake, response count, decode, strobed/masked write, "
+    results = X.run_cases(ck, cases, "AXI4-Lite monitor flags on an input sequence (handshake, response count, decode, strobed/masked write, "
                            "read data, notification or hardware-side field update)",
                 key_of=lambda c: {"layout": c.meta["layout"], "phase": c.meta["phase"]}, count_first=len(cases), timeout=3300)
+    ck.cov["cases"] = {c.name: (dict(states=info["states"], transitions=info["transitions"]) if status == "ok" else status)
+                       for c, status, info in results}
     ck.cov["rule"] = ("one theorem per (register-map layout, phase); each covers all sequences over the phase's alphabet: all valid/ready "
                       "timings of the channels in the phase, the listed addresses (mapped and unmapped), data patterns and strobes")
     ck.trusted += ["fail-closed VHDL reader", "Vhdl.Sem", "axi_monitor_x (Models/AxiSpec.v) as the rendering of the AXI4-Lite slave obligations, "
